@@ -580,6 +580,87 @@ def h_pairs(ctx):
     return Outcome(f"{len(names)}T:pre{npre}:{warm[:4]}:{'ok' if not vs else 'BAD'}", vs, nontrivial=(combo, tuple(ctx.choices[2:])))
 
 
+# ------------------------------------------------------------------ calls made from inside a key callable
+def h_reentrant(ctx):
+    """The key argument may be a callable; a resolver that fetches a signed or encrypted key list checks it with joserfc before it
+    answers - a joserfc call inside a joserfc call, both with callable keys. A call's outcome depends only on its own arguments and
+    the keys, so the nested call returns what it returns on its own, the outer one too, and neither waits for the other (a lock held
+    across the callable shows under the cooperative scheduler as a deadlock of one thread with itself, or of two threads)."""
+    from joserfc import jws, jwe, jwt
+    shape = ctx.choose("nesting", ["jws in jws", "jws in jws in jws", "jwe in jws", "jws in jwe", "jwt in jwt", "jws in jws (the inner call refuses its token)"])
+    other = ctx.choose("second_thread", ["none", "a plain verification with a callable key", "the same nested call"])
+    K = scen.key
+    oct_key, ec_pub, kw_key = A.jkey(K("oct32"), "dict"), A.jkey(rjwk.public_of(K("P-256")), "dict"), A.jkey(K("oct24"), "bytes")
+    t_hs, t_es, t_bad = ref_token("HS256", "oct32"), ref_token("ES256", "P-256"), ref_token("ES256", "P-256", bad=True)
+    t_jwe = ref_jwe("A192KW", "oct24")
+    claims_tok = jws.serialize_compact({"alg": "HS256", "typ": "JWT"}, b'{"iss":"a"}', oct_key)
+
+    def anchor(obj):
+        return ec_pub
+
+    def inner_jws(tok=t_es):
+        return bytes(jws.deserialize_compact(tok, anchor).payload)
+
+    def nested():
+        if shape.startswith("jws in jws in jws"):
+            def mid(obj):
+                assert inner_jws() == PT
+                return ec_pub
+
+            def outer(obj):
+                assert bytes(jws.deserialize_compact(t_es, mid).payload) == PT
+                return oct_key
+            return ("verified", bytes(jws.deserialize_compact(t_hs, outer).payload))
+        if shape.startswith("jws in jws"):
+            seen = []
+
+            def outer(obj):
+                r = call(inner_jws, t_bad if "refuses" in shape else t_es)
+                seen.append(r.value if r.ok else type(r.exc).__name__)
+                return oct_key
+            return ("verified", bytes(jws.deserialize_compact(t_hs, outer).payload), tuple(seen))
+        if shape == "jwe in jws":
+            def outer(obj):
+                assert bytes(jwe.decrypt_compact(t_jwe, lambda o: kw_key, algorithms=["A192KW", "A128GCM"]).plaintext) == PT
+                return oct_key
+            return ("verified", bytes(jws.deserialize_compact(t_hs, outer).payload))
+        if shape == "jws in jwe":
+            def outer(obj):
+                assert inner_jws() == PT
+                return kw_key
+            return ("decrypted", bytes(jwe.decrypt_compact(t_jwe, outer, algorithms=["A192KW", "A128GCM"]).plaintext))
+
+        def outer(obj):
+            assert jwt.decode(claims_tok, lambda o: oct_key).claims == {"iss": "a"}
+            return oct_key
+        return ("claims", json.dumps(jwt.decode(claims_tok, outer).claims))
+    want = {"jws in jws": ("verified", PT, (PT,)), "jws in jws (the inner call refuses its token)": ("verified", PT, ("BadSignatureError",)),
+            "jws in jws in jws": ("verified", PT), "jwe in jws": ("verified", PT), "jws in jwe": ("decrypted", PT), "jwt in jwt": ("claims", '{"iss": "a"}')}[shape]
+    bodies, wants = [nested], [want]
+    if other.startswith("a plain"):
+        bodies.append(lambda: ("verified", bytes(jws.deserialize_compact(t_es, anchor).payload)))
+        wants.append(("verified", PT))
+    elif other.startswith("the same"):
+        bodies.append(nested)
+        wants.append(want)
+    src = os.path.join(os.environ.get("VERIF_REPO", "/repo"), "src", "joserfc")
+    sch = Scheduler(ctx, src)
+    try:
+        results = sch.run(bodies, labels=[f"T{i}" for i in range(len(bodies))])
+    except Deadlock as e:
+        return Outcome(f"nested:pre{ctx.cost}:DEADLOCK", [viol("a joserfc call made from inside a key callable never returns (calls wait for each other)",
+                                                                f"{shape}, second thread: {other}: {e}; {ctx.cost} preemption(s)")], nontrivial=(shape, other, tuple(ctx.choices[2:])))
+    vs = []
+    for i, ((ok, val), w) in enumerate(zip(results, wants)):
+        if not ok and isinstance(val, (Divergence, SchedulerError)):
+            raise val
+        obs = val if ok else ("raised", type(val).__name__, str(val)[:80])
+        if obs != w:
+            vs.append(viol("a joserfc call made from inside a key callable changes what a call returns",
+                           f"{shape}, thread {i} (second thread: {other}): observed {str(obs)[:160]}, expected {str(w)[:120]}; {ctx.cost} preemption(s)"))
+    return Outcome(f"nested:pre{ctx.cost}:{'ok' if not vs else 'BAD'}", vs, nontrivial=(shape, other, tuple(ctx.choices[2:])))
+
+
 class _ThreadDraws:
     def __init__(self, label):
         self.label = label
@@ -784,6 +865,7 @@ PARTS = [
     Part("sequential-histories", custom=sequential, engine="E2"),
     _pd,
     Part("scheduler-selftest", custom=selftest, engine="E3"),
+    Part("calls-from-inside-a-key-callable", h_reentrant, bound={"quick": 1, "thorough": 2}, split_depth=2, budget={"quick": 600, "thorough": 1200}, engine="E3"),
     Part("thread-schedules", h_pairs, bound={"quick": 1, "thorough": 2}, split_depth=3, budget={"quick": 2400, "thorough": 3000}, engine="E3"),
     _pf,
 ]
